@@ -107,7 +107,12 @@ func execSortCase(c sortCase, _ core.Source) (res core.Result) {
 		for i, x := range in {
 			cat.SetValue(i, x)
 		}
+		lookAtCatalog(cat) // every view has been used before the order changes
 		cat.SortValuesWithRanker(func(a, b col.AssociationLike[int, tagged]) age.Rank { return rank(a.GetValue(), b.GetValue()) })
+		if why := lookAtCatalog(cat); why != "" {
+			res.Violation = core.Violate("C09/Catalog/views-disagree", "after SortValuesWithRanker(%s) on a catalog of %d associations: %s", c.Ranker, len(in), why)
+			return
+		}
 		for _, a := range cat.AsArray() {
 			if a.GetKey() != a.GetValue().Pos {
 				res.Violation = core.Violate("C09/Catalog/mapping-changed", "sorting a catalog re-paired key %d with %v", a.GetKey(), a.GetValue())
@@ -169,12 +174,21 @@ func execSortCase(c sortCase, _ core.Source) (res core.Result) {
 		for i, x := range in {
 			cat.SetValue(i, x)
 		}
+		lookAtCatalog(cat)
 		cat.ReverseValues()
+		if why := lookAtCatalog(cat); why != "" {
+			res.Violation = core.Violate("C09/Catalog/views-disagree", "after ReverseValues on a catalog of %d associations: %s", len(in), why)
+			return
+		}
 		got = nil
 		for _, a := range cat.AsArray() {
 			got = append(got, a.GetValue())
 		}
 		cat.ShuffleValues()
+		if why := lookAtCatalog(cat); why != "" {
+			res.Violation = core.Violate("C09/Catalog/views-disagree", "after ShuffleValues on a catalog of %d associations: %s", len(in), why)
+			return
+		}
 		var after []tagged
 		for _, a := range cat.AsArray() {
 			if a.GetKey() != a.GetValue().Pos {
@@ -208,6 +222,29 @@ func execSortCase(c sortCase, _ core.Source) (res core.Result) {
 		res.Classes = append(res.Classes, "shape-"+c.Shape)
 	}
 	return
+}
+
+// lookAtCatalog uses every view of the catalog and reports a disagreement between them: the array view,
+// the iteration, GetKeys and GetValue must describe the same associations in the same order
+func lookAtCatalog(cat col.CatalogLike[int, tagged]) string {
+	arr := cat.AsArray()
+	keys := cat.GetKeys().AsArray()
+	walked := walk(cat.GetIterator())
+	if len(keys) != len(arr) || len(walked) != len(arr) || cat.GetSize() != len(arr) {
+		return fmt.Sprintf("sizes differ: AsArray %d, GetKeys %d, iteration %d, GetSize %d", len(arr), len(keys), len(walked), cat.GetSize())
+	}
+	for i, a := range arr {
+		if keys[i] != a.GetKey() {
+			return fmt.Sprintf("GetKeys[%d] = %d but AsArray[%d] has key %d", i+1, keys[i], i+1, a.GetKey())
+		}
+		if walked[i].GetKey() != a.GetKey() {
+			return fmt.Sprintf("iteration[%d] has key %d but AsArray[%d] has key %d", i+1, walked[i].GetKey(), i+1, a.GetKey())
+		}
+		if cat.GetValue(a.GetKey()) != a.GetValue() {
+			return fmt.Sprintf("GetValue(%d) = %v but AsArray pairs the key with %v", a.GetKey(), cat.GetValue(a.GetKey()), a.GetValue())
+		}
+	}
+	return ""
 }
 
 func genSortExhaustive(maxLen int, rankers []string) func(core.Source) sortCase {
